@@ -130,6 +130,22 @@ func init() {
 			RealStub: "real: internal/hwmon discovery and matching, internal/backend.go sensor binding, cobra root command, RunDaemon, controllers; stub/model: libsensors (pure-Go stand-in enumerating the fake tree in a seeded order), world devices, clock, scheduling",
 		},
 		PropertyPlan{
+			ID: "C14", Level: "fault_enumeration",
+			Families: []FamilyPlan{{Name: "c14", Quick: 400, Thorough: 20000, Chunk: 25}, {Name: "c14crash", Quick: 48, Thorough: 1500, Chunk: 1, SeedTimeout: 600 * time.Second}},
+			Rule:     "c14: seeded sequences of 5-60 save/load/delete/corrupt operations of both kinds over 3 fan ids (arbitrary maps: empty, negative and out-of-range keys, fractional, huge, denormal and negative-zero values, 256 entries) through the real persistence code (which reopens the bbolt file for every operation), compared with an in-memory model after every step by reading back ALL six entries. c14crash: for a seeded sequence of 1-7 operations a worker process is killed with SIGKILL (strace syscall injection) at the k-th pwrite64 and at the k-th fdatasync for EVERY k the sequence issues; a fresh process reads everything back: acknowledged operations visible, the in-flight one entirely or not at all, other entries untouched. distinct = scenario hash; non-trivial = steps judged / at least one crash point judged",
+			Probes:   []string{"steps-judged", "ops:corrupt", "delete-of-absent-entry", "crash-points-judged", "in-flight-op-applied", "in-flight-op-not-applied"},
+			Assume:   []string{"process kill, not power loss: completed writes survive, a single pwrite is not torn", "crash points are enumerated exhaustively per generated sequence; the sequences themselves are sampled", "concurrent clients are not explored: the persistence operations contain no seam, so the simulator cannot interleave inside them; cross-process exclusion is bbolt's file lock"},
+			RealStub: "real: internal/persistence, bbolt on tmpfs, real processes killed by a real SIGKILL at a syscall chosen by strace injection; no simulated clock or scheduler is involved in this property (L0/L3)",
+		},
+		PropertyPlan{
+			ID: "C18", Level: "exploration",
+			Families: []FamilyPlan{{Name: "c18walk", Quick: 8, Thorough: 16, Chunk: 1, SeedTimeout: 300 * time.Second}, {Name: "c18loop", Quick: 64, Thorough: 2000, Chunk: 4}},
+			Rule:     "c18walk: as root the harness walks one executable (and one configuration file) through owner {root, other} x group {root, other} x all 512 permission modes x {direct path, symlink} with real chown/chmod, visiting points in a seeded order so that consecutive calls see unrelated attributes; at every point the real cmd sensor, cmd fan or configuration validation is called and the command's side-effect marker is compared with the reference predicate (owner root, not group-writable unless group root, not other-writable) and the file's execute bits. quick: 8 x 256 seeded sample points; thorough: 16 blocks x 256 = all 4096 points (the attribute sub-space is enumerated completely). c18loop: a closed loop with cmd sensor and cmd fan whose four scripts' owner/group/mode are flipped 2-8 times by environment events between executions; every exec event is judged against the attributes in force at its permission check. distinct = scenario hash",
+			Probes:   []string{"executions-judged", "config-file-rule-judged", "allowed-points", "rejected-points", "loop-executions-judged", "loop-rejections"},
+			Assume:   []string{"the harness runs as root", "flips never land between the permission check and the start of the same execution (that window is inherent to check-then-exec)", "thorough enumerates the attribute sub-space completely; the order and call-site assignment are seeded"},
+			RealStub: "real: util.CheckFilePermissionsForExecution, util.SafeCmdExecution, sensors.CmdSensor, fans.CmdFan, configuration.Validate, real chown/chmod/symlink and real child processes; c18loop adds the L1 simulator (clock, scheduler) around them",
+		},
+		PropertyPlan{
 			ID: "C12", Level: "exploration",
 			Families: []FamilyPlan{{Name: "c12", Quick: 240, Thorough: 8000, Chunk: 10}},
 			Rule:     "each run = closed loop with full-range fans (min 0, max 255) and the direct algorithm, where the request equals the curve value; maps from the configuration (sparse, plateaus) or from the real sweep against a quantising driver; every cycle compares the write (or the decision not to write) with the reference nearest-supported-input computation. distinct = scenario hash; non-trivial = at least one write judged",
